@@ -181,6 +181,36 @@ pub fn replay(args: &[String]) {
         let _ = std::fs::remove_dir_all(work.join(format!("r{ci}")));
         let _ = std::fs::remove_dir_all(&other);
     }
+    // a watched root inside another watched root: a path is named once per root it lies under
+    {
+        rep.cases += 1;
+        let root = work.join("nested");
+        std::fs::create_dir_all(root.join("nest").join("deep")).unwrap();
+        let root = root.canonicalize().unwrap();
+        let inner = root.join("nest");
+        std::fs::write(inner.join("f.x"), b"v1").unwrap();
+        std::fs::write(root.join("top.x"), b"v1").unwrap();
+        for roots in [vec![root.clone(), inner.clone()], vec![inner.clone(), root.clone()]] {
+            for (kind, path, want) in [
+                ("modify", inner.join("f.x"), vec!["file:nest.f:x", "file:f:x"]),
+                ("create", inner.join("f.x"), vec!["file:nest.f:x", "dir:nest", "file:f:x", "dir:"]),
+                ("modify", inner.join("deep").join("g.y"), vec!["file:nest.deep.g:y", "file:deep.g:y"]),
+                ("modify", root.join("top.x"), vec!["file:top:x"]),
+                ("remove", inner.join("gone.x"), vec!["file:nest.gone:x", "dir:nest", "file:gone:x", "dir:"]),
+            ] {
+                rep.checks += 1;
+                let (tx, rx) = w::test_channel();
+                let ev = notify::Event { kind: event_kind(kind, false), paths: vec![path.clone()], attrs: Default::default() };
+                w::handle_event(roots.clone(), tx, ev);
+                let got: BTreeSet<String> = rx.drain().into_iter().flatten().map(|x| ent_json(&x)).collect();
+                let want: BTreeSet<String> = want.iter().map(|s| s.to_string()).collect();
+                if got != want {
+                    rep.mismatch(json!({"what":"with one watched root inside another, a notification does not name the entry under each root",
+                        "kind":kind,"path":path.display().to_string(),"roots":roots.iter().map(|r| r.display().to_string()).collect::<Vec<_>>(),"got":got,"want":want}));
+                }
+            }
+        }
+    }
     let _ = std::fs::remove_dir_all(&work);
     rep.extra.insert("spellings_skipped_not_a_tree".into(), json!(skipped));
     rep.print();
